@@ -526,6 +526,12 @@ func ruleMagicDispatch(c *Check, p *Program, rule string) {
 					ok = true
 				}
 			}
+			// or hands the word to a predicate accepting exactly the legacy magic
+			if call, isC := in.(*ssa.Call); isC && !ok {
+				if ps, okP := predSetAlias(call, func(v ssa.Value) bool { return loadField(v) == "Frame.Magic" }, 32); okP {
+					ok = ps.equal(vset{{magicLegacy, magicLegacy}})
+				}
+			}
 		})
 		c.Cond(ok, rule, "Frame.isLegacy", p.Pos(il.Pos()), "isLegacy tests Magic == 0x184C2102", "comparison found", "isLegacy does not compare Frame.Magic with the legacy magic")
 	} else {
@@ -652,6 +658,26 @@ func valueSetsFull(fn *ssa.Function, alias func(ssa.Value) bool, start *ssa.Basi
 }
 
 func predSetAlias(cond ssa.Value, alias func(ssa.Value) bool, width uint) (vset, bool) {
+	// a predicate function of the module applied to the word: its accept set
+	neg := false
+	cv := cond
+	if u, isU := cv.(*ssa.UnOp); isU && u.Op == token.NOT {
+		neg, cv = true, u.X
+	}
+	if call, isC := cv.(*ssa.Call); isC {
+		if f := staticCallee(call); f != nil && inModule(f) && len(f.Blocks) > 0 && len(f.Blocks) <= 8 && f.Signature.Recv() == nil && len(call.Call.Args) == len(f.Params) {
+			for i, a := range call.Call.Args {
+				if alias(a) && len(*f.Params[i].Referrers()) > 0 {
+					if acc, ok := acceptSetOf(f, f.Params[i], width); ok {
+						if neg {
+							return acc.complement(width), true
+						}
+						return acc, true
+					}
+				}
+			}
+		}
+	}
 	// find the operand standing for the word
 	var m ssa.Value
 	var find func(v ssa.Value)
@@ -974,9 +1000,68 @@ func checkSetter(c *Check, p *Program, rule, key string, s *ssa.Function, lo, n 
 	nStores := 0
 	ok := true
 	var why []string
+	// values of the body's other parameters (a generic helper called with constants)
+	pre := map[ssa.Value]bitvec{}
+	argWidth := widthOf(arg.Type())
+	// a setter that only hands its receiver and argument to a generic helper of the package: the helper's body is
+	// verified with the constants of this call
+	direct := false
+	allInstrs(s, func(in ssa.Instruction) {
+		if st, isSt := in.(*ssa.Store); isSt && st.Addr == ssa.Value(recv) {
+			direct = true
+		}
+	})
+	if !direct {
+		var fwd *ssa.Call
+		nCalls := 0
+		for _, ci := range callsIn(s) {
+			call, isCall := ci.(*ssa.Call)
+			g := staticCallee(ci)
+			if !isCall || g == nil || !inModule(g) || len(g.Blocks) == 0 {
+				continue
+			}
+			nCalls++
+			if len(call.Call.Args) == len(g.Params) && len(g.Params) >= 2 && call.Call.Args[0] == ssa.Value(recv) {
+				fwd = call
+			}
+		}
+		if fwd != nil && nCalls == 1 {
+			g := staticCallee(fwd)
+			tmp := &bitEnv{vals: map[ssa.Value]bitvec{}, ok: true}
+			if !isBool {
+				tmp.vals[arg] = inputVec('a', argWidth)
+			}
+			var newArg *ssa.Parameter
+			bound := true
+			for i, a := range fwd.Call.Args[1:] {
+				prm := g.Params[i+1]
+				if isBool && a == ssa.Value(arg) {
+					newArg = prm
+					continue
+				}
+				bv := tmp.eval(a)
+				if !tmp.ok {
+					bound = false
+				}
+				pre[prm] = bv
+				if !isBool && derivesFromValue(a, arg) {
+					newArg = prm
+				}
+			}
+			if bound && (newArg != nil || !isBool) {
+				c.Funcs[fname(g)] = true
+				s, recv = g, g.Params[0]
+				if isBool {
+					arg = newArg
+				} else {
+					arg = nil
+				}
+			}
+		}
+	}
 	// the polarity of the boolean argument on the edge pred -> blk (1 true, 0 false, -1 not decided by it)
 	edgePol := func(pred, blk *ssa.BasicBlock) int {
-		if ifi, isIf := pred.Instrs[len(pred.Instrs)-1].(*ssa.If); isIf && ifi.Cond == ssa.Value(arg) {
+		if ifi, isIf := pred.Instrs[len(pred.Instrs)-1].(*ssa.If); isIf && arg != nil && ifi.Cond == ssa.Value(arg) {
 			if pred.Succs[0] == blk && pred.Succs[1] != blk {
 				return 1
 			}
@@ -997,7 +1082,7 @@ func checkSetter(c *Check, p *Program, rule, key string, s *ssa.Function, lo, n 
 	var cases [][2]interface{} // (store, polarity) pairs to verify
 	allInstrs(s, func(in ssa.Instruction) {
 		st, isSt := in.(*ssa.Store)
-		if !isSt || st.Addr != recv {
+		if !isSt || st.Addr != ssa.Value(recv) {
 			return
 		}
 		if isBool {
@@ -1046,8 +1131,11 @@ func checkSetter(c *Check, p *Program, rule, key string, s *ssa.Function, lo, n 
 				env.vals[u] = inputVec('i', width)
 			}
 		})
-		if !isBool {
-			env.vals[arg] = inputVec('a', widthOf(arg.Type()))
+		if !isBool && arg != nil {
+			env.vals[arg] = inputVec('a', argWidth)
+		}
+		for k, bv := range pre {
+			env.vals[k] = bv
 		}
 		v := env.eval(st.Val)
 		if !env.ok {
